@@ -77,9 +77,11 @@ fn s_params(t: &mut Tape, ctx: &mut Ctx) -> Result<(), Failure> {
                 "one-missing"
             }
             3 => {
-                let ty = valgen::gen_ty(t, &TyCfg::SMALL, 1);
-                let v = valgen::gen_val(t, &ty);
-                args.push(("EXTRA".to_string(), v, ty));
+                for k in 0..1 + t.index(3) {
+                    let ty = valgen::gen_ty(t, &TyCfg::SMALL, 1);
+                    let v = valgen::gen_val(t, &ty);
+                    args.push((format!("EXTRA{k}"), v, ty));
+                }
                 "extra-name"
             }
             _ => {
@@ -120,7 +122,7 @@ fn s_params(t: &mut Tape, ctx: &mut Ctx) -> Result<(), Failure> {
             }
             (Ok(_), false) => {
                 // (c) behaviour == literal substitution == reference interpreter
-                let used: Vec<(String, Val, Ty)> = args.iter().filter(|(n, _, _)| n != "EXTRA").cloned().collect();
+                let used: Vec<(String, Val, Ty)> = args.iter().filter(|(n, _, _)| !n.starts_with("EXTRA")).cloned().collect();
                 let g_inst = Generated { params: used.clone(), ..g.clone() };
                 let (maps, _) = assignments(t, &g_inst, 16, 2);
                 // instantiate path (check_maps compiles with g_inst's arguments)
